@@ -259,3 +259,21 @@ CHECKS["C09"] = dict(
          "geometric quantities of the subset are compared with the source's at the recorded indices (float tolerance 1e-9).",
     technique="Lean 4 theorems over a hand model (repaired algorithm + as-is counterexamples) + differential correspondence with Lean-evaluated specs",
 )
+
+CHECKS["C19"] = dict(
+    text=("Lean theorems over a heap of references (UxVerif.C19): construct_readonly (every constructor only allocates: for EVERY heap, "
+          "variable list and choice of wrapped input buffers, nothing an input can reach is modified), copy_disjoint / export_disjoint_* "
+          "(Grid.copy and the exporters return objects sharing no cell with the grid), and copy_independent (+ interleaved form): "
+          "if two objects share no cell then ANY history of mutator actions on one leaves every cell the other reaches untouched — induction "
+          "over unbounded histories. The verdict on the real code is Lean's: the object graph of the live Python objects (Grid, Dataset, "
+          "Variable, attrs dicts, buffers by np.shares_memory, caches, exported objects) is extracted before/after every constructor x container "
+          "kind x dtype/fill/start_index variant, copy, export and mutation step and judged by the checkers judge/frameJ, whose answers are "
+          "certified in both directions (judge_sep, judge_shared, frameJ_ok, frameJ_changed). Public observations and re-exports are compared as "
+          "well; the abstract scenario is run in the Lean model (as-is and repaired) and the code may alias no more than the model. The "
+          "snapshot's aliasing is proved (asis_*) and was repaired by fixes 29dff011, c33e40e3, 5f6834f5, e8eed1a0; dataset adoption and "
+          "cached GeoDataFrame/LineCollection hand-out are known findings."),
+    note=_TB + "Modelled, not verified: completeness of the extracted object graph (module-level state is C08's subject), CPython/NumPy/xarray "
+         "aliasing semantics (zero-copy wrapping, Dataset.copy(deep=True), drop_vars), the mapping of real API calls to model operations. Zero-copy "
+         "wrapping of input coordinate arrays is not judged (the statement forbids modifying inputs, not reading them in place). Differential-test level only.",
+    technique="Lean 4 theorems (all heaps, all histories) + verified graph checkers run on the real object graph + differential correspondence",
+)
